@@ -199,7 +199,65 @@ def run_probe(task):
     return res
 
 
+def repo_problem_pairs():
+    """every problem file under /repo/tests with a domain file of the name it asks for (same directory preferred)"""
+    import glob
+    import re as real_re
+    doms, probs = {}, []
+    for p in sorted(glob.glob(os.path.join(lib.REPO, "tests", "**", "*.pddl"), recursive=True)):
+        try:
+            txt = open(p, encoding="utf-8").read().lower()
+        except Exception:  # noqa
+            continue
+        m = real_re.search(r"\(define\s*\(domain\s+([^\s()]+)", txt)
+        if m:
+            doms.setdefault(m.group(1), []).append(p)
+        elif "(define" in txt and "(problem" in txt:
+            m = real_re.search(r"\(:domain\s+([^\s()]+)", txt)
+            if m:
+                probs.append((p, m.group(1)))
+    out = []
+    for p, dn in probs:
+        cands = sorted(doms.get(dn, []), key=lambda d: (os.path.dirname(d) != os.path.dirname(p), d))
+        if cands:
+            out.append({"repo_problem": p, "domains": cands})
+    return out
+
+
+def run_repo_problem(task):
+    """a shipped problem file: parse, export to a file, parse again, compare -- concrete (nothing symbolic: the file is what it is)"""
+    from pddl_plus_parser.exporters import ProblemExporter
+    from pddl_plus_parser.lisp_parsers import DomainParser, ProblemParser
+    res = {"task": task, "outcome": "skipped", "paths": 1, "obligations": 0, "cex": None, "reached": 1}
+    for d in task["domains"]:
+        try:
+            domain = DomainParser(Path(d)).parse_domain()
+            pb = ProblemParser(Path(task["repo_problem"]), domain).parse_problem()
+        except Exception:  # noqa -- not this property's subject (C01 / C05)
+            continue
+        path = _scratch()
+        try:
+            ProblemExporter().export_problem(pb, path)
+            back = ProblemParser(path, domain).parse_problem()
+            problems, obligations = [], []
+            compare(pb, back, problems, obligations)
+            problems += [d_ for d_, o in obligations if not z3.is_true(z3.simplify(o))]
+        except Exception as e:  # noqa
+            problems = [f"export / re-parse raised {type(e).__name__}: {e}"]
+        finally:
+            if path.exists():
+                os.unlink(path)
+        res["obligations"] = 1
+        res["outcome"] = "violation" if problems else "held"
+        if problems:
+            res["cex"] = {"what": "; ".join(problems)[:500], "all_problems": problems, "domain": d, "atoms": {}, "fluents": {}}
+        return res
+    return res
+
+
 def run_task(task):
+    if task.get("repo_problem"):
+        return run_repo_problem(task)
     if task.get("probe"):
         return run_probe(task)
     res = {"task": task, "outcome": "held", "paths": 0, "obligations": 0, "cex": None, "reached": 0}
@@ -343,6 +401,8 @@ def twin():
 def main(tier):
     rep = runner.Report("C09", tier, "other")
     tasks = tasks_for(tier, runner.seed())
+    repo_tasks = repo_problem_pairs()
+    tasks += repo_tasks
     results = runner.pmap(run_task, tasks)
     c, agg = Counter(), Counter()
     paths = obligations = nontrivial = unconfirmed = 0
@@ -360,8 +420,11 @@ def main(tier):
         solver_s += st.get("solver_seconds", 0.0)
         if r["paths"] >= 2:
             nontrivial += 1
-        label = json.dumps({"atoms": t["atoms"], "fluents": t["fluents"], "goal": [sexpr.render(g) for g in t["goal"]],
-                            "objects": t["objects"], "name": t.get("name", "pu")})
+        if t.get("repo_problem"):
+            label = json.dumps({"repository problem file": os.path.relpath(t["repo_problem"], lib.REPO)})
+        else:
+            label = json.dumps({"atoms": t["atoms"], "fluents": t["fluents"], "goal": [sexpr.render(g) for g in t["goal"]],
+                                "objects": t["objects"], "name": t.get("name", "pu")})
         if r["outcome"] == "violation":
             cx = r["cex"]
             detail = f"{label}: {cx['what']} with the initial state {[a for a, v in cx['atoms'].items() if v]} {cx['fluents']}"
@@ -380,6 +443,10 @@ def main(tier):
             samples.append({"task": json.loads(label), "paths": r["paths"], "obligations": r["obligations"],
                             "obligation_form": "pc /\\ not(forall fluents: parsed value == exported value) unsat; name, objects, "
                                                "facts, fluent argument lists, goal literals and numeric goals compared per path"})
+    repo_out = Counter(r["outcome"] for t, r in zip(tasks, results) if t.get("repo_problem"))
+    rep.coverage["repository_problem_files"] = {"files": len(repo_tasks), "outcomes": dict(repo_out),
+                                                "what": "every problem file under tests/ that parses with a domain file of the name it asks for: "
+                                                        "parse, export to a file, parse again, compare (concrete)"}
     if not twin():
         rep.twins_failed.append("vacuity twin: an altered value in the text was not noticed")
     q = dict(agg)
@@ -412,6 +479,14 @@ def main(tier):
 
 def replay(payload, path):
     cx = payload["cex"]
+    if payload["task"].get("repo_problem"):
+        r = run_repo_problem(payload["task"])
+        print(r["outcome"], r.get("cex"))
+        if r["outcome"] == "violation":
+            print(f"VIOLATION property=C09 replay={path}")
+            return 1
+        print("does not reproduce")
+        return 0
     rp = concrete_round_trip(payload["task"], cx["atoms"], cx["fluents"])
     print(json.dumps(callsym._jsonable(rp), indent=1))
     if rp["disagree"]:
